@@ -102,6 +102,8 @@ class LexerHang(Exception):
 def lex(name, text):
     """Tokenizer alone.  Returns (tokens, file).  Exceptions propagate; a spin is turned into LexerHang by a watchdog."""
     import signal
+    from . import core as _core
+    _core.note_current(name, text)
     File, Lexer, _, _, _ = _imports()
     f = File(name, text)
     try:
@@ -130,6 +132,8 @@ def analyse(name, text, debug=0, R=None, registry=None, keep_tokens=False):
     (whether that is a property violation is C05's business, decided there by a step count): the result is then a CRASH
     with the pseudo exception type 'Hang'."""
     import signal
+    from . import core as _core
+    _core.note_current(name, text)
     File, Lexer, Context, Registry, CParsingError = _imports()
     r = Result()
     buf = io.StringIO()
